@@ -59,6 +59,9 @@ fn req_sequences(ctx: &mut Ctx) {
     } else {
         world::swarm(ctx, SwarmOpts::default());
     }
+    // beyond the undisturbed enumeration a request may have a long or an empty leading frame in
+    // front of its last one (one wire message per request, whatever its frames look like)
+    let leads: Vec<usize> = (0..seq.len()).map(|step| if ctx.idx >= NSEQ && ctx.plan(3) == 0 { ctx.plan_pick(&[0usize, 256, 300, 9000]) } else { 1 + step }).collect();
     let viol: Viol = Rc::new(RefCell::new(Vec::new()));
     let done = Rc::new(RefCell::new(false));
     let (vl, dn) = (viol.clone(), done.clone());
@@ -99,7 +102,7 @@ fn req_sequences(ctx: &mut Ctx) {
         for (step, is_send) in seq2.iter().enumerate() {
             let before = conn.tap_len_from(1);
             if *is_send {
-                let m = tagged(0, next, &[1 + step, 3]);
+                let m = tagged(0, next, &[leads[step], 3]);
                 let r = req.send(to_zmq(&m)).await;
                 match (awaiting, r) {
                     (None, Ok(())) => {
@@ -204,6 +207,8 @@ fn rep_sequences(ctx: &mut Ctx) {
     // rejected request is not a received request - the lock-step state must not move
     let malformed: Vec<Vec<Option<u8>>> = (0..2).map(|_| (0..6).map(|_| if ctx.idx >= NSEQ && ctx.plan(4) == 0 { Some(ctx.plan(3) as u8) } else { None }).collect()).collect();
     let n_malformed: usize = malformed.iter().flatten().flatten().count();
+    // ... and a reply may have a long or an empty frame in front of its last one
+    let reply_leads: Vec<Option<usize>> = (0..seq.len()).map(|_| if ctx.idx >= NSEQ && ctx.plan(3) == 0 { Some(ctx.plan_pick(&[0usize, 256, 300, 9000])) } else { None }).collect();
     let viol: Viol = Rc::new(RefCell::new(Vec::new()));
     let done = Rc::new(RefCell::new(false));
     let (vl, dn) = (viol.clone(), done.clone());
@@ -249,7 +254,10 @@ fn rep_sequences(ctx: &mut Ctx) {
         for (step, is_send) in seq2.iter().enumerate() {
             let before: Vec<usize> = conns.iter().map(|c| c.tap_len_from(1)).collect();
             if *is_send {
-                let reply = tagged(7, step as u32, &[4]);
+                let reply = match reply_leads[step] {
+                    Some(l) => tagged(7, step as u32, &[l, 4]),
+                    None => tagged(7, step as u32, &[4]),
+                };
                 let r = rep.send(to_zmq(&reply)).await;
                 if ambiguous {
                     ambiguous = false;
